@@ -808,7 +808,12 @@ func (t *sourceTracer) TransitionEnd(tx *am.Transition) {
 	}
 	if s.syncShallowClocks {
 		mTime = am.NewTime(mTime, mTime.ActiveStates(nil))
-		trackedTSum = mTime.Sum(nil)
+		// only the tracked states, the client doesn't know the others
+		if s.syncSchema {
+			trackedTSum = mTime.Filter(t.trackedStateIdxs).Sum(nil)
+		} else {
+			trackedTSum = mTime.Sum(nil)
+		}
 	}
 
 	// update
